@@ -413,8 +413,12 @@ def make_tree(rng: random.Random) -> Dict[str, Any]:
             files["%s/%s/inner.py" % (root, nm)] = "def f(): pass\n"
     if rng.random() < 0.05:
         # something that is not a readable regular file where a source file is expected
-        what = rng.randrange(5)
-        if what == 0:
+        what = rng.randrange(6)
+        if what == 5:
+            # an extension module that cannot be loaded: ignored unless --introspect-c-modules is given (an option, outside
+            # the property's quantifier; with it an empty .so aborts the run with ImportError — reported to C18 / coordinator)
+            files[root + "/native.so"] = ""
+        elif what == 0:
             files[root + "/dsub/__init__.py"] = "#DIR"
             files[root + "/dsub/m.py"] = "x = 1\n"
         elif what == 1:
@@ -881,7 +885,7 @@ def corpus_trees() -> List[Dict[str, Any]]:
     tree({**base, **import_chain(random.Random(0), "pkg", 130)})
     # ... and the band around the threshold, where the analysis just goes through and the recursion limit is met later
     # (rendering: the colouriser) or in the middle of a definition
-    for n in range(306, 336):
+    for n in range(310, 334):
         s_plus, s_or = " + ".join(["1"] * n), " | ".join(["int"] * n)
         mod("X = %s\n" % s_plus)
         mod("x: %s = 1\n" % s_or)
@@ -912,7 +916,7 @@ def corpus_trees() -> List[Dict[str, Any]]:
 
 def run(ctx: Ctx) -> None:
     import multiprocessing as mp
-    n = 1000 if ctx.quick else 12000
+    n = 850 if ctx.quick else 12000
     trees = corpus_trees() + [make_tree(ctx.rng) for _ in range(n)]
     # separate stream: lone surrogates in string literals (outside every Lean model)
     for i in range(8 if ctx.quick else 60):
